@@ -56,6 +56,41 @@ theorem p_liq_strictMono_partial :
   unfold gLiq at key
   linarith
 
+/-- the lower part of the validity range, `[123 K, 235 K]` (here `tanh` changes sign at 218.8 K) -/
+theorem p_liq_strictMono_low :
+    StrictMonoOn (fun T : ℝ => Gen.vapour_pressure_liquid T) (Set.Icc 123 235) := by
+  intro T1 h1 T2 h2 h12
+  simp only [p_liq_eq]
+  apply Real.exp_lt_exp.mpr
+  obtain ⟨h1l, h1u⟩ := h1
+  obtain ⟨h2l, h2u⟩ := h2
+  have hu : 0.0415 * (T1 - 218.8) ≤ 0.0415 * (T2 - 218.8) := by linarith
+  have htl : Real.tanh (0.0415 * (T2 - 218.8)) - Real.tanh (0.0415 * (T1 - 218.8)) ≤ 0.0415 * (T2 - T1) := by
+    have := tanh_sub_le hu; linarith
+  obtain ⟨hgl, hgu⟩ := gLiq_incr_low h1l h12 h2u
+  have key := liq_assemble_low (d := T2 - T1) (by linarith)
+    (Real.neg_one_lt_tanh _).le (Real.tanh_lt_one _).le (tanh_mono hu) htl
+    (gLiq_lower_low h1l h1u) hgl hgu (liqA_incr_low h1l h12 h2u)
+  unfold gLiq at key
+  linarith
+
+/-- **the saturation vapour pressure over liquid water increases strictly with temperature over
+the whole range of validity of the correlation, `[123 K, 332 K]`.** -/
+theorem p_liq_strictMono :
+    StrictMonoOn (fun T : ℝ => Gen.vapour_pressure_liquid T) (Set.Icc 123 332) := by
+  intro T1 h1 T2 h2 h12
+  obtain ⟨h1l, h1u⟩ := h1
+  obtain ⟨h2l, h2u⟩ := h2
+  by_cases ha : T2 ≤ 235
+  · exact p_liq_strictMono_low ⟨h1l, by linarith⟩ ⟨h2l, ha⟩ h12
+  · have ha' : 235 < T2 := lt_of_not_ge ha
+    by_cases hb : 235 ≤ T1
+    · exact p_liq_strictMono_partial ⟨hb, h1u⟩ ⟨by linarith, h2u⟩ h12
+    · have hb' : T1 < 235 := lt_of_not_ge hb
+      have m1 := p_liq_strictMono_low (a := T1) (b := 235) ⟨h1l, hb'.le⟩ ⟨by norm_num, le_refl _⟩ hb'
+      have m2 := p_liq_strictMono_partial (a := 235) (b := T2) ⟨le_refl _, by norm_num⟩ ⟨ha'.le, h2u⟩ ha'
+      exact lt_trans m1 m2
+
 /-! ### Hertz–Knudsen flux -/
 
 /-- **zero at equilibrium**: equal pressures at equal temperatures give no flux. -/
